@@ -28,6 +28,8 @@ Decides:
  G text arm        while text is rendered the only structural tag written is `<br>`.
  K splitter cuts / S front type   the splitter cuts at character boundaries (shared with C04); peek_front_ty looks through Or and past hidden members, so
                     a group whose first member is hidden still yields its commands' sections (shared with C12).
+ S listing         render_manpage runs both append_meta calls and write_help_item_groups on every pass of the section loop; append_meta only ever appends
+                   to the list of help items (GroupStart / GroupEnd stay paired; shared with C04).
 Does not decide: that the byte loop is a complete roff escaper for every input; markdown well-formedness."""
 import re
 from core import *
@@ -61,7 +63,7 @@ def run(ctx):
         ctx.guard(docwalk.payload_writers, ctx, cfg, fs, 'K.cursor')
         import c04 as c04_, c08 as c08_
         # GroupStart/GroupEnd (and the blocks they open and close in every renderer) stay paired because append_meta emits them in pairs and never takes one back
-        ctx.guard(c08_.keep_only, ctx, lambda: c04_.group_flag(ctx, cfg, fs), lambda o: True, 'P.pairing')
+        ctx.guard(c08_.keep_only, ctx, lambda: c04_.group_flag(ctx, cfg, fs), lambda o: True, 'P.token-pairing')
         ctx.guard(c08_.keep_only, ctx, lambda: c04_.str_index(ctx, cfg, fs), lambda o: 'Splitter' in o.key, 'K.cursor')
         ctx.guard(c08_.keep_only, ctx, lambda: c04_.str_cut(ctx, cfg, fs), lambda o: 'Splitter' in o.key, 'K.cursor')
         ctx.guard(docwalk.style_reset_first, ctx, cfg, fs, 'H.html-tags', r'render_html$|render_markdown$', r'buffer::html::change_(to_markdown_)?style$')
